@@ -84,4 +84,25 @@ macro "derive_inv" h:ident : tactic => `(tactic| (
   casesm* ∃ _, _, _ ∧ _, _ ∨ _
   all_goals subst_vars))
 
+/-! ### forward evaluation of the do-block -/
+
+theorem ok_bind {ε α β} (a : α) (f : α → Except ε β) : (Except.ok a >>= f) = f a := rfl
+theorem err_bind {ε α β} (e : ε) (f : α → Except ε β) : ((Except.error e : Except ε α) >>= f) = .error e := rfl
+theorem div_eval {x y : ℝ} (h : y ≠ 0) : Py.div x y = .ok (x / y) := div_ok.mpr ⟨h, rfl⟩
+theorem ite_bind {ε α β} (c : Prop) [Decidable c] (A B : Except ε α) (f : α → Except ε β) :
+    ((if c then A else B) >>= f) = if c then (A >>= f) else (B >>= f) := by split <;> rfl
+
+/-- `none` = returns constants, `some e` = raises `e` -/
+def outcome {α} : Except String α → Option String
+  | .ok _ => none
+  | .error e => some e
+theorem outcome_ok {α} (a : α) : outcome (Except.ok a : Except String α) = none := rfl
+theorem outcome_error {α} (e : String) : outcome (Except.error e : Except String α) = some e := rfl
+theorem outcome_ite {α} (c : Prop) [Decidable c] (A B : Except String α) :
+    outcome (if c then A else B) = if c then outcome A else outcome B := by split <;> rfl
+theorem ok_iff_outcome {α} (X : Except String α) : (∃ c, X = .ok c) ↔ outcome X = none := by
+  cases X <;> simp [outcome]
+theorem error_iff_outcome {α} (X : Except String α) (e : String) : X = .error e ↔ outcome X = some e := by
+  cases X <;> simp [outcome]
+
 end Snow.Derived
